@@ -38,6 +38,12 @@ pub use implementation::ConsumingIovec;
 pub use implementation::OwningIovec;
 pub use implementation::StableIovec;
 
+/// Verification hooks (live arena chunk registry); see `byte_arena::anchor::verif`.
+#[cfg(feature = "pkhuong_woodpile_verif")]
+pub mod verif {
+    pub use crate::byte_arena::verif::*;
+}
+
 impl std::io::Read for ConsumingIovec<'_> {
     fn read(&mut self, mut dst: &mut [u8]) -> std::io::Result<usize> {
         let mut written = 0;
